@@ -36,8 +36,33 @@ CHECKS['C04'] = dict(
           'C04_lengthening / C04_reindexing: doubling one character w of the input changes no parsed value (an equation of Option values for every expression incl. operator tables: defined together, same outcome, same value, spans and end position moved past the doubled character), '
           'for an ignore rule Skip over regexes whose matches end at corresponding positions, literals that do not contain w, token regexes that neither match nor look at it and no Backtrack - an instance of a general re-indexing law for strictly monotone position maps (of which the C08 shift law is another). '
           'PARTIAL: that a concrete regular expression satisfies the stability hypotheses is a fact about the matcher, a parameter of the model.'),
-    note='Trusted as for C01; start rule = rule named start (any capitalisation).',
+    note='Trusted as for C01; start rule = the rule named start (any capitalisation), else the first rule that is not ignored (C04_start_rule; one generated grammar in five has none).',
     design='7 (C04)')
+
+CHECKS['C05'] = dict(
+    technique='Lean 4 names-layer model (lexical specification xpeg with environments and closures; code model xgen with one flat dictionary of locals per call and helper functions over sorted free names) with a simulation theorem for all well-scoped programs + binding facts and static flags of the names-layer classes regenerated from the source (T4) + differential correspondence of real parser, code model and specification',
+    text=('Proof: C05_flat_locals_realise_lexical_scoping (xgen_sim: on every well-scoped program without shadowing, wherever the lexical specification is defined the model of the generated code computes the same outcome and leaves the names in scope as they were - '
+          'for every interpretation of inline Python, every input and fuel), C05_rule_outcome, C05_where_apply_class (what where / |> / <| / class bodies mean), C05_specification_layers_agree (the names layer and the core specification agree on their common fragment), '
+          'C05_shadowing_breaks_it (the lexical specification and the code model differ on the shadowing witness, and the code model returns what the real parser returns: the recorded finding). '
+          'Tie: T4 regenerates on every run which names the real symbol counter treats as bound where, and the static flags of Where/Let/Call/data-dependent List for all operand flags; Tie.binders_agree and Tie.names_flags_conservative re-prove that they are what the model presupposes. '
+          'Correspondence: hand-written families for every clause (abandoned alternatives, repetition, recursion, counts, classes with let/pass/requires members, <| and |> order, parameters hiding rules, predicates that reject consumed text under * ? | {n}, == but differently typed keyword arguments) '
+          'and typed random programs, named and unnamed: real parser = xgen (is the model faithful?), real parser = xpeg (does the property hold?), sorted(expr.freevars()) of every argument expression = captured e. '
+          'PARTIAL: programs in which a binder shadows a name in scope violate the property (known findings C05-shadowing, C05-lambda-late-binding); positions are threaded functionally in the names layer (restores are the subject of C01/C03 and of names_flags_conservative).'),
+    note=('Trusted: Lean kernel; propext/Classical.choice/Quot.sound; translator T4; inline Python is an uninterpreted pure function in the theorems and a fixed repertoire (identity, tuples, lists, comparisons, int, len, +1, constants, lambdas) in the correspondence; '
+          'the hand-written model xgen of the emitted code (tied by the correspondence run).'),
+    design='0.2 (names layer), 7 (C05)')
+
+CHECKS['C06'] = dict(
+    technique='Lean 4 theorems about the names-layer model: a call means the body with the parameters bound to the arguments (semantic), a call means its textual expansion (step-indexed substitution simulation, closed arguments), fuel monotonicity + the C05 simulation theorem for the generated code + call-versus-expansion correspondence on the real generator',
+    text=('Proof: C06_call_is_body_with_arguments and C06_arguments_bind_parameters (positional and keyword arguments in any order bind the parameters; the call evaluates the body in exactly that environment), '
+          'C06_call_means_its_expansion_closed_arguments (Proofs/EnvSubst: the call and the body with the argument expressions substituted for the parameters have the same outcome, closures compared by behaviour in a step-indexed relation), '
+          'C06_more_fuel_same_outcome, and C05_flat_locals_realise_lexical_scoping for the generated code (helper functions over sorted free names, values captured at the call site, _StringLiteral). '
+          'Tie: T4 (as for C05). Correspondence: families (same template at one position with different arguments, nested in itself, positional/keyword, values of every type incl. unhashable and == but differently typed ones, literals as value and parser, '
+          'compound arguments that mention call-site names and are passed on, recursion, classes with parameters, every single differing argument index) and typed random programs: real = xgen, real = xpeg, and the real parser of the program = the real parser of its textual expansion '
+          '(the expansion function of the harness is compared with the Lean subst on every program); for bytes literals, parsed objects, keyword/container arguments, the n=n lambda idiom, classes named like constructors and tuple-valued inline Python arguments the call is compared with a hand-written expansion on the real generator. '
+          'PARTIAL: the expansion theorem is proved for closed argument expressions; arguments that mention call-site names are covered by the semantic theorem and by the correspondence. The memo of the trampoline is outside the names layer (C07).'),
+    note='Trusted as for C05; the textual expansion of the harness refuses call sites whose arguments mention a name that the body rebinds (no renaming is attempted).',
+    design='0.2 (names layer), 7 (C06)')
 
 CHECKS['C07'] = dict(
     technique='Lean 4 model of the _run trampoline (stack + memo small-step machine) with invariant and simulation theorems + step-trace correspondence of the real _run driven by synthetic generators + evaluation-count checks on exponential grammar families',
@@ -88,7 +113,7 @@ CHECKS['C14'] = dict(
 CHECKS['C15'] = dict(
     technique='Lean 4 models of the explicit-stack loops of visit and traverse with theorems identifying them with recursive depth-first specifications (arbitrary sharing, identical leaves) + event-for-event correspondence on random object graphs',
     text=('Proof: C15_visit_eq_first_occurrence_preorder and C15_traverse_events (loop = recursive specification for every tree with arbitrary identities, by induction on a stack measure), C15_visit_at_most_once (no object twice, only reachable ones), '
-          'C15_visit_complete (without sharing: exactly the reachable objects in pre-order), C15_traverse_brackets. Tie: real visit/traverse on random object graphs with shared sub-objects/containers and identical leaf objects (None, cached ints, '
+          'C15_visit_complete (no identity of an object or container occurring twice: exactly the reachable objects in pre-order; both loops remember objects and containers, as the code does), C15_traverse_brackets. Tie: real visit/traverse on random object graphs with shared sub-objects/containers and identical leaf objects (None, cached ints, '
           'interned strings, the empty tuple) are compared object-for-object and event-for-event (by identity) with the Lean loops. PARTIAL: "not limited by recursion depth" is exercised on depth 3000..20000 only.'),
     note='Trusted: Lean kernel; object graphs modelled as identity-labelled trees.',
     design='7 (C15)')
@@ -133,17 +158,17 @@ CHECKS['C12'] = dict(
 
 CHECKS['C13'] = dict(
     technique='Lean 4 model of the _Context tables of an extends chain with theorems (lookup = nearest definer; super = next definer above the writing module) + C01 refinement for the flattened grammar + chain-vs-flattening differential correspondence',
-    text=('Proof: C13_late_binding (the table the generated epilogue builds binds every name to the nearest level of the chain that defines it, for chains of any length) and C13_super; the flattened grammar is decided by the core model (C01). '
+    text=('Proof: C13_late_binding (the table the generated epilogue builds binds every name to the nearest level of the chain that defines it, for chains of any length) and C13_super; C13_flattening / C13_flattened_name (the program the modules of a chain amount to - every definition a rule, plain references through the entry table, super.k through the parent table of the containing module - means what the flattened single grammar means, for expressions written at any level; via C13_rule_numbering_is_immaterial: the meaning does not depend on how rules are numbered, ordered or duplicated); the flattened grammar is decided by the core model (C01). The flattening computed by the harness is compared rule by rule with the Lean construction (driver command flatten) on every generated chain. Every rule of every level is also used as entry point (B.R.parse). '
           'Tie: random chains of 2-3 grammars (overridden / inherited / new rules, super references at every level, ignore declarations named and anonymous in base and derived levels, dotted names, templates overridden and rules passed as arguments) '
           'are parsed through every level and compared with the flattened grammar compiled by the real code; flattened grammars are compared with the Lean model; base modules are re-observed after children (and a sibling reusing a name) were created. '
           'PARTIAL: sys.modules/importlib have no model; what an ignore declared only in a derived grammar does to inherited rules is not constrained by the property and not checked.'),
-    note='Trusted as for C01; the flattening function is part of the harness.',
+    note='Trusted as for C01; the flattening function of the harness is tied to Chain.flatProg on every run. Known finding: entry points of inherited classes (C13-inherited-class-entry-point).',
     design='7 (C13)')
 
 CHECKS['C17'] = dict(
     technique='Lean 4 theorems on the specification (k-fold transparent wrappers, for every k) + C01 refinement + C07 trampoline theorem + depth sweep of wrapper kinds x inner expressions across every block-budget threshold against expected values and the Lean model, plus 10^4-10^5-deep inputs',
     text=('Proof: C17_nested_sequences, C17_nested_options, C17_nested_failing_choices (k layers yield the k-fold wrapped value, for every k and every inner expression, in the specification; the code model follows by C01), '
-          'C07_memo_transparent (the trampoline computes the recursive meaning with a flat loop). Tie: inner expressions (literal, regex, rule/class reference, template calls, inline Python and repetition counts mentioning bound names, parameters, '
+          'C07_memo_transparent (the trampoline computes the recursive meaning with a flat loop), C17_spilled_helper_same_outcome (names layer: an expression run in a helper frame that holds nothing but the values of its sorted free names has the lexical outcome, the same as compiled in place). Tie: names-layer programs whose binder scopes are wrapped past the block budget (real = code model = specification); inner expressions (literal, regex, rule/class reference, template calls, inline Python and repetition counts mentioning bound names, parameters, '
           'operator tables, never-failing expressions) x wrapper kinds x depths 1..120 (every multiple of the block budget crossed) x named/unnamed x with/without ignore are compiled and run by the real code and compared with the k-fold wrapped value; '
           'a subset is compared with the Lean model, which has no nesting limit. PARTIAL: the split into helper functions itself and the flatness of the Python stack are not expressible in the model; inputs with 10^4 (thorough 10^5) nested brackets are run under the default recursion limit.'),
     note='Trusted as for C01.',
